@@ -448,3 +448,29 @@ def r_iter_views(ctx, db, est, ln, consts=None):
                    "variance(i) is computed by exactly the same arithmetic as the i-th value of variances()" if not bad
                    else "%s is not computed by the same arithmetic as variances() (agreement only up to rounding): %s vs %s" % (
                        bad[0], show_val(dict((l, a) for l, a, b in pairs)[bad[0]])[:120], show_val(dict((l, b) for l, a, b in pairs)[bad[0]])[:120]))
+
+
+def r_bin_variance_range(ctx, db, est, ln, consts=None):
+    """bin variance c*(1 - c/total) lies in [0, c]: over the reals 1 - c_i/total = (sum of the
+    other counts)/total, a ratio of non-negative quantities"""
+    import d7
+    import sympy as sp
+    TR = "traits::Histogram"
+    vp = est.m("variance", None) or est.m("variance", TR) or ((TR + "::variance") if (TR + "::variance") in db.fns else None)
+    if vp is None:
+        return
+    for j in range(ln):
+        m = Machine(db, [], Config(release=True, consts=consts or {}))
+        a, ea, ba, rng, bn = hist_state(m, est, "self")
+        v = call(m, vp, [VRef(a, (), False), j])
+        cv = d7.Conv(positive=lambda n: True, machine=m)
+        e = sp.cancel(sp.together(cv.conv(v)))
+        c = cv.conv(F.i2f(ba[j]))
+        num, den = sp.fraction(e)
+        import num_rules as N
+        ok0 = N.all_nonneg_poly(num) and N.all_nonneg_poly(den)
+        num2, den2 = sp.fraction(sp.cancel(sp.together(c - e)))
+        ok1 = N.all_nonneg_poly(num2) and N.all_nonneg_poly(den2)
+        ctx.ob("R-SIGN", "bin-variance-range:LEN=%d:bin=%d" % (ln, j), vp, R.fn_site(db, vp), ok0 and ok1,
+               "variance(%d) = %s is %s" % (j, e, "a ratio of polynomials with non-negative coefficients in the counts, and so is count - variance: it lies in [0, count]"
+                                            if ok0 and ok1 else "not provably within [0, count]"), d7=True)
